@@ -41,24 +41,25 @@ _NOASLR = None
 
 
 class Worker:
-    def __init__(self, wid: int, exe: str, hashseed: int, repo: str, logdir: str, pad: int = 0):
+    def __init__(self, wid: int, exe: str, hashseed: int, repo: str, logdir: str, pad: int = 0, opt: int = 0):
         self.wid = wid
         self.exe = exe
         self.pad = int(pad)
+        self.opt = int(opt)
         self.hashseed = int(hashseed)
         self.repo = repo
         self.logpath = os.path.join(logdir, "worker-%d.log" % wid)
         self.log = open(self.logpath, "wb")
         env = {
             "PATH": os.environ.get("PATH", "/usr/bin:/bin"),
-            "HOME": os.environ.get("HOME", "/root"),
+            "HOME": "/sim/home",  # a simulated path: ~ expansion can never reach the real disk
             "PYTHONHASHSEED": str(self.hashseed),
             "PYTHONDONTWRITEBYTECODE": "1",
             "LC_ALL": "C.UTF-8",
             "VERIF_HEAP_PAD": str(self.pad),
         }
         self.proc = subprocess.Popen(
-            _noaslr_prefix() + [exe, "-P", "-c", _BOOT, "--repo", repo, "--id", str(wid)],
+            _noaslr_prefix() + [exe, "-P"] + (["-O"] if self.opt else []) + ["-c", _BOOT, "--repo", repo, "--id", str(wid)],
             stdin=subprocess.PIPE, stdout=subprocess.PIPE, stderr=self.log, env=env, cwd=os.path.join(logdir, "cwd"),
             text=True, encoding="utf-8", bufsize=1,
         )
@@ -146,9 +147,10 @@ class Fleet:
             for spec in specs:
                 exe, hs = spec[0], spec[1]
                 pad = spec[2] if len(spec) > 2 else 0
+                opt = spec[3] if len(spec) > 3 else 0
                 grp = []
                 for _ in range(replicas):
-                    grp.append(Worker(wid, exe, hs, self.repo, self.logdir, pad))
+                    grp.append(Worker(wid, exe, hs, self.repo, self.logdir, pad, opt))
                     wid += 1
                 self.groups.append(grp)
             for grp in self.groups:
@@ -233,9 +235,9 @@ class Fleet:
         self.close()
 
 
-def fresh_worker(repo: str, exe: str, hashseed: int, pad: int = 0) -> Fleet:
+def fresh_worker(repo: str, exe: str, hashseed: int, pad: int = 0, opt: int = 0) -> Fleet:
     """A brand-new interpreter for replay verification."""
-    return Fleet(repo, [(exe, hashseed, pad)], replicas=1, jobs=1)
+    return Fleet(repo, [(exe, hashseed, pad, opt)], replicas=1, jobs=1)
 
 
 def default_jobs() -> int:
